@@ -1,1 +1,87 @@
 //! Verification hooks (`--cfg rustrtc_verif` only): sctp.
+//!
+//! * seeds: fixed initial TSN / verification tag per local SCTP port, consumed by
+//!   `send_init` / `handle_init` instead of the random values (TSN wrap-around reachable);
+//! * trace: per-port log of the packets an endpoint processed / emitted, in the exact
+//!   order its (single) run-loop task handled them;
+//! * re-exports of the pure-function wrappers defined at the end of `transports/sctp.rs`.
+use bytes::Bytes;
+use parking_lot::Mutex;
+use std::collections::HashMap;
+
+pub use crate::transports::sctp::verif::*;
+
+#[derive(Clone, Copy, Debug, Default)]
+pub struct Seeds {
+    pub tag: Option<u32>,
+    pub tsn: Option<u32>,
+}
+
+/// One entry of an endpoint's trace.
+#[derive(Clone, Debug)]
+pub enum Ev {
+    /// `handle_packet` entered with this datagram
+    Rx(Bytes),
+    /// `send_packet_with_tag` queued this datagram for the transport
+    Tx(Bytes),
+    /// a named point was passed with these values (see call sites)
+    Mark(&'static str, Vec<u64>),
+}
+
+struct Reg {
+    seeds: HashMap<u16, Seeds>,
+    trace: HashMap<u16, Vec<Ev>>,
+}
+
+static REG: Mutex<Option<Reg>> = Mutex::new(None);
+
+fn with<R>(f: impl FnOnce(&mut Reg) -> R) -> R {
+    let mut g = REG.lock();
+    let r = g.get_or_insert_with(|| Reg {
+        seeds: HashMap::new(),
+        trace: HashMap::new(),
+    });
+    f(r)
+}
+
+/// Fix the initial TSN / verification tag the endpoint with this local port will choose.
+pub fn set_seeds(local_port: u16, seeds: Seeds) {
+    with(|r| {
+        r.seeds.insert(local_port, seeds);
+    })
+}
+
+pub fn clear(local_port: u16) {
+    with(|r| {
+        r.seeds.remove(&local_port);
+        r.trace.remove(&local_port);
+    })
+}
+
+pub(crate) fn seed_tag(local_port: u16) -> Option<u32> {
+    with(|r| r.seeds.get(&local_port).and_then(|s| s.tag))
+}
+
+pub(crate) fn seed_tsn(local_port: u16) -> Option<u32> {
+    with(|r| r.seeds.get(&local_port).and_then(|s| s.tsn))
+}
+
+/// Start recording the trace of the endpoint with this local port.
+pub fn trace_enable(local_port: u16) {
+    with(|r| {
+        r.trace.entry(local_port).or_default();
+    })
+}
+
+/// Take (and clear) what was recorded so far.
+pub fn trace_take(local_port: u16) -> Vec<Ev> {
+    with(|r| r.trace.get_mut(&local_port).map(std::mem::take).unwrap_or_default())
+}
+
+pub(crate) fn trace(local_port: u16, ev: impl FnOnce() -> Ev) {
+    with(|r| {
+        if let Some(t) = r.trace.get_mut(&local_port) {
+            t.push(ev());
+        }
+    })
+}
